@@ -346,6 +346,13 @@ class C20(Prop):
                              "do m load,/c20/odd/a", "do u1a seteuid,s:Root", "do u1a load,/c20/u1/b", "do u1a load,/c20/root/a",
                              "do u2a seteuid,s:backbone", "do u2a load,/c20/bb/a", "do u2a load,/c20/u2/b", "do odda seteuid,s:u1",
                              "pol cf u1 s:u1", "do odda load,/c20/u1/c", "do odda export,u1b", "do m seteuid,s:root", "do m load,/c20/root/b"])
+        # ---- round 6: master::valid_object - asked about every new blueprint before creator_file; refusal destructs it again
+        mk("valid-object", ["pol vo u1 i:0", "do m load,/c20/u1/a", "do m clone,c1,/c20/u1/a", "pol vo u1 i:1", "do m load,/c20/u1/a",
+                            "do m clone,c1,/c20/u1/b", "pol vo u2 err", "do m load,/c20/u2/a", "do m load,/c20/u2/a", "pol vo u2 s:ok",
+                            "do m load,/c20/u2/b", "pol vo u2 arr", "do m clone,c2,/c20/u2/c", "pol vo bb none", "do m load,/c20/bb/a",
+                            "pol vo bb -", "do m load,/c20/bb/a", "pol vo odd i:-1", "pol cf odd drop+s:Backbone", "do m load,/c20/odd/a",
+                            "script /c20/root/a load,/c20/root/b", "pol vo root i:0", "do m load,/c20/root/a", "pol co u1 t:/c20/root/c",
+                            "do m load,/c20/u1/v1", "do u1a call,/c20/root/c", "do u1a seteuid,s:u1", "do u1a filter,/c20/root/c"])
         # ---- round 6: loaders whose euid differs from their uid (master-approved foreign seteuid) - every creation rule, for load,
         # clone and virtual objects (the class of the independently written change C20-5: backbone objects get the loader's EUID)
         mk("foreign-euid-loader", ["do m load,/c20/root/a", "do roota seteuid,s:zed", "do roota load,/c20/bb/a", "do roota clone,c1,/c20/bb/b",
@@ -551,6 +558,10 @@ class C20(Prop):
                 if rng.chance(2, 3):
                     lines.append("do %s dest,m" % actor())
                 continue
+            if rng.chance(1, 30):
+                lines.append("pol vo %s %s" % (rng.choice(DIRS), rng.weighted([("i:0", 3), ("i:1", 2), ("err", 2), ("none", 1), ("s:x", 1),
+                                                                                   ("arr", 1), ("-", 2)])))
+                continue
             if rng.chance(1, 6):
                 if rng.chance(1, 5):
                     lines.append("pol vb %s %s %s" % (rng.choice(sorted(objs) + ["*", "*"]), rng.choice(sorted(objs) + ["*", "*"]),
@@ -638,7 +649,7 @@ class C20(Prop):
              "noeuid_clone_error": 0, "compile_object_calls": 0, "virtual_handed_out": 0, "funptr_ops": 0, "funptr_noeuid_refused": 0,
              "master_reloads": 0, "master_reload_refused": 0, "export_onto_self": 0, "nested_ops": 0, "nested_creations": 0, "nested_noeuid_refused": 0, "max_nesting": 0, "backbone_grants": 0, "policy_errors": 0, "nobj": 0, "reloads": 0,
              "crash": 0, "cfg_nobb": 0, "cfg_noroot": 0, "cfg_novb": 0, "cfg_simul": 0, "simul_actor_ops": 0, "simul_dest_error": 0, "cf_callback_drops": 0,
-             "bind_ops": 0, "bind_asked": 0, "bind_denied": 0}
+             "bind_ops": 0, "bind_asked": 0, "bind_denied": 0, "valid_object_asked": 0, "valid_object_denied": 0}
         alias_ops = 0
         driven_ops = 0
         foreign = {"load": 0, "clone": 0, "virtual": 0, "backbone": 0}
@@ -672,6 +683,8 @@ class C20(Prop):
                     astack.append(actor_cur)
                     actor_cur = t[1]
                     pend_cf = None
+                elif t[0] == "vo":
+                    h["valid_object_asked"] += 1
                 elif t[0] == "vb":
                     h["bind_asked"] += 1
                 elif t[0] == "co":
@@ -728,6 +741,8 @@ class C20(Prop):
                         h["noeuid_load_error"] += 1
                     if "without_effective_UID" in r:
                         h["noeuid_clone_error"] += 1
+                    if "valid_object_denied" in r:
+                        h["valid_object_denied"] += 1
                     if "Cannot_destruct_simul" in r:
                         h["simul_dest_error"] += 1
                     if "policy_error" in r:
